@@ -42,6 +42,11 @@ def run(rep, tier, seed, model_ok=True, effort=1):
             # corpus history: the config gets ahead of the newest tag across a 9 -> 10 digit boundary
             spec = rwgen.gen_project(common.rng(1, "c08-corpus"), impl, legacy=False, max_files=2, allow_mixed=False)
             spec["vp"], spec["flags"], spec["old"] = "MAJOR.MINOR.PATCH", ["--minor"], "1.8.0"
+            # two different patterns on one line, listed left to right, while the version grows in length (1.9.0 -> 1.10.0)
+            fs = rwgen.FileSpec("INSTALL.txt", ["mylib-{version}.tar.gz", "(tag v{version})"])
+            fs.lines = [([rwgen.Seg("text", "download "), rwgen.Seg("occ", 0), rwgen.Seg("text", " "), rwgen.Seg("occ", 1), rwgen.Seg("text", " now")], "\n"),
+                        ([rwgen.Seg("text", "end")], "\n")]
+            spec["files"].append(fs)
             scripted = ["update", "no-tag", "update", "allow-dirty", "update"]
         spec["cfg_prefix"] = ""
         with rwgen.to_temp_project(project, spec, commit=True, tag=True, push=False, vcs=None) as prj:
